@@ -1,6 +1,6 @@
 (* ApiBit.v — correspondence entry points for C10.  Definitions only. *)
 From Coq Require Import ZArith List Bool.
-From Mpir Require Import Word Limbs MpnBasicDefs MpzDefs BitDefs ApiBasic.
+From Mpir Require Import Word Limbs MpnBasicDefs MpzDefs BitDefs ApiBasic ScanDefs.
 Import ListNotations.
 Local Open Scope Z_scope.
 
@@ -27,8 +27,9 @@ Definition api_mpz_setbit : api := fun a => out_mpz (mpz_setbit (argmpz a 0) (ar
 Definition api_mpz_clrbit : api := fun a => out_mpz (mpz_clrbit (argmpz a 0) (argz a 1)).
 Definition api_mpz_combit : api := fun a => out_mpz (mpz_combit (argmpz a 0) (argz a 1)).
 Definition api_mpz_tstbit : api := fun a => [TZ (mpz_tstbit (argmpz a 0) (argz a 1))].
-Definition api_mpz_scan1 : api := fun a => [TZ (mpz_scan1 (argmpz a 0) (argz a 1))].
-Definition api_mpz_scan0 : api := fun a => [TZ (mpz_scan0 (argmpz a 0) (argz a 1))].
+(* the limb-level models of scan1.c / scan0.c (proved equal to the value-level definitions: C10_scan_limb_level) *)
+Definition api_mpz_scan1 : api := fun a => [TZ (mpz_scan1_c (argmpz a 0) (argz a 1))].
+Definition api_mpz_scan0 : api := fun a => [TZ (mpz_scan0_c (argmpz a 0) (argz a 1))].
 Definition api_mpz_popcount : api := fun a => [TZ (mpz_popcount (argmpz a 0))].
 Definition api_mpz_hamdist : api := fun a =>
   let u := argmpz a 0 in let v := if argz a 2 =? 1 then u else argmpz a 1 in [TZ (mpz_hamdist u v)].
